@@ -67,6 +67,27 @@ reg(
     "DESIGN.md §3 C12",
 )
 
+reg(
+    "C07",
+    "exploration",
+    "model-based testing: generated operation histories (Hypothesis) + complete enumeration of bounded histories, reference model = set of ordered pairs, invariant after every step",
+    "All single-pair histories over 3 nodes up to length 5 (thorough; 3 quick) and over 4 nodes up to length 3 (thorough; 2 quick), all two-op "
+    "overlap histories with list operands, and random histories over every operator spelling incl. cross-project operands. After each step the "
+    "four link tables of every module are checked for mutual consistency slot by slot and the edge set is compared with the model.",
+    "Unsupported spellings (~a >> x, plain list on the left of an operator) are not generated.",
+    "DESIGN.md §3 C07",
+)
+reg(
+    "C08",
+    "exploration",
+    "model-based testing with save/load steps inside generated histories + metamorphic file variants (SLnK dropped for all / a subset of modules, SLNK terminator)",
+    "Link histories of C07 with the project replaced by its reloaded copy at generated points; per-module tables compared before/after up to "
+    "trailing freed slots, C07 invariant on the loaded project, history continues against the model. The final bytes are additionally edited "
+    "(slot chunk removed everywhere / for a generated subset, -1 terminator added) and must load to the same graph with consistent tables.",
+    "Slot positions are only claimed for files that carry SLnK as written.",
+    "DESIGN.md §3 C08",
+)
+
 NOT_APPLICABLE = {}
 
 ALL = ["C%02d" % i for i in range(1, 21)]
